@@ -387,4 +387,44 @@ def run(prog):
             errs.append("%sexpected one literal stream per set, found %d" % ("?" if n == 0 else "", n))
         out.append(inst("PM", "%s:two-sets" % fn.npath, VIOLATION if errs else OK, fn, None,
                         errs[0] if errs else "true set ↦ positive literals, false set ↦ negative literals"))
+        if name != "difference":
+            continue
+        # the difference of two models is taken per *literal*: true(self) \ true(other) and false(self) \ false(other).
+        # A variable that `other` assigns the other way is still in the difference.
+        errs, nd = [], 0
+        for t in mir.subterms(whole):
+            if mir.is_call(t, "difference") and len(t[2]) == 2:
+                a, b = strip(t[2][0]), strip(t[2][1])
+                sa, sb = which_set(a), which_set(b)
+                if sa is None or sb is None:
+                    continue
+                nd += 1
+                owner = lambda x: [y for y in mir.subterms(x) if y[0] == "param"]
+                pa, pb_ = owner(a), owner(b)
+                if sa != sb:
+                    errs.append("the %s set of one model is subtracted from the %s set of the other: literals of opposite polarity "
+                                "do not cancel" % (("true", "false")[sb], ("true", "false")[sa]))
+                elif pa and pb_ and (pa[0][1], pb_[0][1]) != (1, 2):
+                    errs.append("the difference is taken as other \\ self")
+        if nd == 0:
+            flt = [t for t in mir.subterms(whole) if mir.is_call(t, "filter") and len(t[2]) == 2]
+            blind = False
+            for t in flt:
+                clo = strip(t[2][1])
+                if isinstance(clo, tuple) and clo and clo[0] == "agg" and clo[1] == "closure":
+                    for g in prog.lib_fns:
+                        if g.npath == clo[2] and any(cs.callee.name in ("is_set", "contains") for cs in g.terms.calls) and \
+                                not any(cs.callee.name in ("lit_implied", "lit_neg_implied", "get", "polarity") for cs in g.terms.calls):
+                            blind = True
+            if blind:
+                errs.append("the literals of self are filtered by whether the other model *assigns the variable*, not by whether it "
+                            "contains the literal: a variable assigned the opposite way in the other model is dropped from the "
+                            "difference (true(self) \\ true(other) and false(self) \\ false(other) keep it)")
+            else:
+                errs.append("?no set difference per polarity found")
+        elif nd < 2 and not errs:
+            errs.append("?expected one set difference per polarity, found %d" % nd)
+        from .base import verdict_of, errtext
+        out.append(inst("PM", "%s:per-literal" % fn.npath, verdict_of(errs), fn, None,
+                        errtext(errs) if errs else "true(self) \\ true(other) and false(self) \\ false(other)"))
     return out
